@@ -315,12 +315,12 @@ func init() {
 	})
 	// query alphabet: the delimiters literally and as escape tokens (an escaped delimiter must never act as one),
 	// a lone '%', digits that complete escapes, non-ASCII, an invalid byte, space, ';' (no separator) and a tab
-	sigmaQ := []string{"a", "b", "=", "&", "+", "%", "%26", "%3D", "%3d", "%2B", "%25", "%20", "2", "é", "\xff", " ", ";", "\t"}
+	sigmaQ := []string{"a", "b", "=", "&", "+", "%", "%26", "%3D", "%3d", "%2B", "%25", "%20", "2", "é", "\xff", " ", ";", "\t", "%FF", "%80"}
 	register(&fw.Check{
 		ID:    "C11",
 		Level: "model_checking",
 		Rule: "(i) explicit-state BFS over histories of Append/Set/Delete/Sort/SortAbsolute on a real SearchParams (names {a b '' a&b A e-acute} x values {1 '' c=d 1+1 %41 space}, 80 operations, list length capped), the standard's list operations in lock-step; after every step Get/GetAll/Has for 8 probe names, the list itself, and parse(serialize(list)) = list (by the standard's parser and by the implementation); " +
-			"(ii) long lists: every name sequence over {a,b} of length 5..8 and 12..13 (thorough ..16) and every periodic pattern (period <=5 over 3 names) at lengths 14..300, values = positions: Sort and SortAbsolute must be stable sorts; (iii) every query of SigmaQ^<=k (a b = & + % and the escape tokens %26 %3D %3d %2B %25 %20, 2, e-acute, 0xFF, space, ';', tab) parsed through Parse and through SetSearch with a live handle against the standard's form-urlencoded parser. non-trivial = new list states / queries with at least one pair",
+			"(ii) long lists: every name sequence over {a,b} of length 5..8 and 12..13 (thorough ..16) and every periodic pattern (period <=5 over 3 names) at lengths 14..300, values = positions: Sort and SortAbsolute must be stable sorts; (iii) every query of SigmaQ^<=k (a b = & + % and the escape tokens %26 %3D %3d %2B %25 %20, 2, e-acute, 0xFF, space, ';', tab, and %FF %80: escapes that decode to bytes which are never valid UTF-8, each of which is one U+FFFD) parsed through Parse and through SetSearch with a live handle against the standard's form-urlencoded parser. non-trivial = new list states / queries with at least one pair",
 		Assume:  []string{"the standard's urlencoded parser/serializer and list operations as transcribed in verif/model", "sort order checked with Go's byte order on names where UTF-8 and UTF-16 order coincide", "invalid UTF-8 compared as U+FFFD"},
 		Trusted: []string{"verif/model"},
 		Body: func(c *fw.Ctx) {
